@@ -283,10 +283,13 @@ def run(ctx):
             pos = int(rng.integers(len(flist) + 1))
             flist.insert(pos, 'NAMED1')
             named[pos] = nf[:, 0]
+        theta = np.ones(len(flist))
+        if multi:       # apertures that fall inside the table at every distance of the grid (1..2 kpc)
+            if truth.apertures[-1] * 0.5 <= truth.apertures[0] * 1.02:
+                ctx.rmdir(d)          # table spanning less than a factor two: no such aperture exists
+                continue
+            theta = np.array([float(gen.loguniform(rng, truth.apertures[0] * 1.01, truth.apertures[-1] * 0.5)) for _ in flist]) / 1000.0
         try:
-            theta = np.ones(len(flist))
-            if multi:       # apertures that fall inside the table at every distance of the grid
-                theta = np.array([float(gen.loguniform(rng, truth.apertures[0] * 1.01, truth.apertures[-1] * 0.5)) for _ in flist]) / 1000.0
             ft = gen.make_fitter(flist, theta, d, gen.build_law(lw, lc), (0., 1.), (1.0, 2.0), use_memmap=False)
         except Exception as exc:
             ctx.violation('cube:fitter-raised:%s' % ('no-uncertainties' if not with_unc else type(exc).__name__),
